@@ -58,6 +58,7 @@ type Report struct {
 // instance of the Report struct. This instance can later be used to
 // add data and annotations and subsequently generate a report.
 func NewReport(title string, date <-chan time.Time) *Report {
+	VerifStage("ReportDate", 0, []any{date}, nil)
 	return &Report{
 		Title:   title,
 		Date:    date,
@@ -81,6 +82,7 @@ func (r *Report) AddChart() int {
 // AddColumn adds a new data column to the specified charts. If no
 // chart is specified, it will be added to the main chart.
 func (r *Report) AddColumn(column ReportColumn, charts ...int) {
+	VerifStage("ReportColumn", len(r.Columns), []any{column}, nil)
 	r.Columns = append(r.Columns, column)
 	columnID := len(r.Columns)
 
